@@ -2308,8 +2308,10 @@ func (m *SnapManager) doLinkSnap(t *state.Task, _ *tomb.Tomb) (err error) {
 	t.Set("old-cohort-key", oldCohortKey)
 	t.Set("old-last-refresh-time", oldLastRefreshTime)
 	t.Set("old-revs-before-cand", oldRevsBeforeCand)
+	// saved for undo, also on refreshes (which drop the entry of the
+	// candidate below)
+	t.Set("old-revert-status", snapst.RevertStatus)
 	if snapsup.Revert {
-		t.Set("old-revert-status", snapst.RevertStatus)
 		switch snapsup.RevertStatus {
 		case NotBlocked:
 			if snapst.RevertStatus == nil {
@@ -2794,13 +2796,14 @@ func (m *SnapManager) undoLinkSnap(t *state.Task, _ *tomb.Tomb) error {
 	snapst.LastRefreshTime = oldLastRefreshTime
 	snapst.CohortKey = oldCohortKey
 
-	if isRevert {
-		var oldRevertStatus map[int]RevertStatus
-		err := t.Get("old-revert-status", &oldRevertStatus)
-		if err != nil && !errors.Is(err, state.ErrNoState) {
-			return err
-		}
-		// may be nil if not set (e.g. created by old snapd)
+	var oldRevertStatus map[int]RevertStatus
+	err = t.Get("old-revert-status", &oldRevertStatus)
+	if err != nil && !errors.Is(err, state.ErrNoState) {
+		return err
+	}
+	if isRevert || err == nil {
+		// may be nil if not set (e.g. created by old snapd); refreshes
+		// by older snapd did not save it, keep what is there then
 		snapst.RevertStatus = oldRevertStatus
 	}
 
